@@ -78,6 +78,10 @@ func c05GenMetadata(c *core.Ctx, entityID string) *saml.EntityDescriptor {
 			case 1:
 				ep.IsDefault = boolPtr(false)
 			}
+			if r.Intn(4) == 0 {
+				rl := "https://elsewhere.example.com/response-location"
+				ep.ResponseLocation = &rl
+			}
 			desc.AssertionConsumerServices = append(desc.AssertionConsumerServices, ep)
 		}
 		m.SPSSODescriptors = append(m.SPSSODescriptors, desc)
